@@ -778,6 +778,14 @@ impl OldeExportedSubs {
         let mut errors = ErrorFlag::new();
         for item in items {
             if let ast::Item::Func(func@ast::ItemFunc { qualifier: None, ident, .. }) = &item.value {
+                if func.code.is_none() {
+                    // (the parameters of a declaration have no definitions to look up)
+                    errors.set(ctx.emitter.emit(error!(
+                        message("extern functions are not supported in old-style ECL file"),
+                        primary(item, "unsupported extern function"),
+                    )));
+                    continue;
+                }
                 match OldeExportedSub::from_item(sub_format, game, func, sub_index, ctx) {
                     Ok(sub) => {
                         subs.insert(ctx.resolutions.expect_def(ident), sub);
